@@ -726,6 +726,30 @@ fn run_pred(c: &PredCase, obs: &mut Obs) -> Check {
         (Err(e), true) => return Err(Failure::new("predicate-owner:vm-rejects-valid", format!("check_predicates refuses the formula owner: {e:?} ({len} bytes)"))),
         (Err(e), false) => return Err(Failure::new("predicate-owner:vm-unexpected-error", format!("{e:?}"))),
     }
+    // every predicate input is checked on its own: a second predicate input that claims the
+    // (valid) owner of the first one but carries different bytecode must be refused
+    if valid && len <= 30_000 {
+        let mut pred2 = pred.clone();
+        pred2.extend_from_slice(&op::noop().to_bytes());
+        let second = Input::coin_predicate(UtxoId::new(Bytes32::new(r32()), 2), addr, 500, AssetId::zeroed(), Default::default(), 0, pred2, c.data.clone());
+        let first = Input::coin_predicate(UtxoId::new(Bytes32::new(r32()), 3), addr, 700, AssetId::zeroed(), Default::default(), 0, pred.clone(), c.data.clone());
+        let mut tx2 = TransactionBuilder::script(op::ret(RegId::ONE).to_bytes().to_vec(), vec![]).script_gas_limit(10_000).add_input(first).add_input(second).add_fee_input().finalize();
+        tx2.estimate_predicates(&cp, MemoryInstance::new(), &EmptyStorage)
+            .map_err(|e| Failure::new("harness-estimate", format!("estimate_predicates (two predicates) failed: {e:?}")))?;
+        ensure!(
+            matches!(tx2.check_signatures(&params.chain_id()), Err(ValidityError::InputPredicateOwner { index: 1 })),
+            "predicate-owner:tx-check-accepts-second-input-with-borrowed-owner",
+            "check_signatures does not refuse a second predicate input claiming the first one's owner"
+        );
+        let checked2 = tx2.into_checked_basic(Default::default(), &params).map_err(|e| Failure::new("harness-checked-basic", format!("{e:?}")))?;
+        let res2 = checked2.check_predicates(&cp, MemoryInstance::new(), &EmptyStorage, NotSupportedEcal);
+        ensure!(
+            matches!(res2, Err(CheckError::PredicateVerificationFailed(PredicateVerificationFailed::InvalidOwner { index: 1 }))),
+            "predicate-owner:vm-accepts-second-input-with-borrowed-owner",
+            "check_predicates result for a second predicate input claiming the first one's owner: {:?}", res2.map(|_| ())
+        );
+        obs.class("owner:second-input-borrowed");
+    }
     if nontrivial_len(len) {
         obs.nontrivial(&(len, format!("{:?}", c.wrong), c.input_kind % 3));
     }
